@@ -144,6 +144,10 @@ fn same_class_other(c: u8, k: usize) -> u8 {
 fn variant_of(s: &Signed, p: usize, k: usize) -> Case {
     let mut sig = s.signature.clone().into_bytes();
     sig[p] = same_class_other(sig[p], k);
+    if k == 2 {
+        // an upper-case hex letter at the first differing position (a client that sends upper-case hex)
+        sig[p] = b'A' + ((p % 6) as u8);
+    }
     if k == 1 {
         // everything after the first difference differs too (same class)
         for q in p + 1..64 {
@@ -162,6 +166,22 @@ fn first_divergence(a: &[u64], b: &[u64]) -> Option<usize> {
     }
     Some(a.iter().zip(b.iter()).position(|(x, y)| x != y).unwrap_or(a.len().min(b.len())))
 }
+
+/// A `log` sink that formats every record it is given (as a real logger would) and keeps nothing.
+struct Sink;
+impl log::Log for Sink {
+    fn enabled(&self, _m: &log::Metadata) -> bool {
+        true
+    }
+    fn log(&self, r: &log::Record) {
+        use std::fmt::Write;
+        let mut s = String::new();
+        let _ = write!(s, "{}", r.args());
+        std::hint::black_box(s.len());
+    }
+    fn flush(&self) {}
+}
+static SINK: Sink = Sink;
 
 fn main() {
     let args: Vec<String> = std::env::args().collect();
@@ -215,14 +235,25 @@ fn main() {
             let v = imp::validate_with(&c, req, &mut prov);
             std::hint::black_box(v.class);
         }
-        let variants_per_pos = if thorough { 2 } else { 1 };
+        // odd bases run with the application's logging switched to TRACE (arguments of trace! statements are
+        // then evaluated): the comparison must be constant-time with or without logging
+        if base % 2 == 1 {
+            let _ = log::set_logger(&SINK);
+            log::set_max_level(log::LevelFilter::Trace);
+        } else {
+            log::set_max_level(log::LevelFilter::Off);
+        }
+        // quick: one variant per position (kinds alternate along the positions); thorough: all three
+        let variants_per_pos = if thorough { 3 } else { 1 };
+        let variant_kinds: [usize; 3] = [0, 2, 1];
         // no heap activity in this loop: results go into fixed arrays and are reported afterwards
-        let mut results: [(usize, usize, usize, i64, bool); 128] = [(0, 0, 0, -1, false); 128];
+        let mut results: [(usize, usize, usize, i64, bool); 192] = [(0, 0, 0, -1, false); 192];
         let mut nres = 0usize;
         let mut have_ref = false;
-        let mut errors: [&'static str; 128] = [""; 128];
+        let mut errors: [&'static str; 192] = [""; 192];
         for p in 0..64usize {
-            for k in 0..variants_per_pos {
+            for kk in 0..variants_per_pos {
+                let k = if thorough { variant_kinds[kk] } else { [0usize, 2][p % 2] };
                 let r = trace(&Work::Variant { base: &s, pos: p, k }, &mut cur);
                 match r {
                     Err(e) => {
